@@ -1,4 +1,4 @@
-from areas import codec
+from props.common import run_all as run  # noqa: F401
 
 META = {
     "title": "Encoders and decoders are mutually inverse and match their standards",
@@ -9,5 +9,3 @@ META = {
 }
 
 
-def run(ctx):
-    codec.check_hex(ctx)
